@@ -15,7 +15,7 @@ from ..terms import Term, V, ANY
 
 def summarise(prog: Program, fi: FuncInfo) -> Summary:
     """Every rule reads the normal form: the event summary with helpers spliced in."""
-    return _flow.spliced(prog, fi)
+    return _flow.final(prog, fi)
 
 
 def absorbed_helpers(prog: Program) -> set:
@@ -50,15 +50,15 @@ class Ctx:
     def summ(self, qn: str) -> Summary:
         """The function's event summary with helpers spliced in (see flow.spliced): the normal form
         every rule reads."""
-        from ..flow import spliced
-        return spliced(self.prog, self.prog.func(qn))
+        from ..flow import final
+        return final(self.prog, self.prog.func(qn))
 
     def raw(self, qn: str) -> Summary:
         return _flow.summarise(self.prog, self.prog.func(qn))
 
     def spliced(self, qn: str) -> Summary:
-        from ..flow import spliced
-        return spliced(self.prog, self.prog.func(qn))
+        from ..flow import final
+        return final(self.prog, self.prog.func(qn))
 
     def cfg(self, qn: str) -> CFG:
         return cfg_of(self.prog.func(qn))
@@ -87,6 +87,23 @@ def param_by_annotation(fi: FuncInfo, ann_name: str, fallback_index: Optional[in
 def elems_of(bag: Term) -> Tuple[Term, ...]:
     b = T.strip(bag)
     return b[1] if b[0] == "bag" else ()
+
+
+def vacuous_nonempty(gt: Term, contexts: Sequence[Tuple[Tuple[Term, ...], Tuple[Term, ...]]]) -> bool:
+    """`gt` says that a collection B is not empty, and every one of the given (guards, iters) contexts contains the
+    context of some element of B: whenever one of them is instantiated, so is that element, i.e. B is not empty.
+    Guarding the things that happen in those contexts by "B is not empty" (`if not waits: return`) changes nothing."""
+    gt = T.strip(gt)
+    if gt[0] == "call" and gt[1] == ("glob", "len") and len(gt[2]) == 1:
+        gt = gt[2][0]
+    B = T._plain_bag(gt)
+    if B is None or not B[1] or not contexts:
+        return False
+    for guards, iters in contexts:
+        gs = set(T.guard_term(g) for g in guards)
+        if not any(set(x[3]) <= set(iters) and set(T.guard_term(g) for g in x[2]) <= gs for x in B[1]):
+            return False
+    return True
 
 
 def awaited_elems(s: Summary) -> List[Tuple[Term, Tuple[Term, ...], Tuple[Term, ...], Event, str]]:
